@@ -41,6 +41,8 @@ def obligations():
         Obl("C07.dispatch", "xh", H, "dispatch", ["mdtraj.geometry.angle.compute_angles", "mdtraj.geometry.dihedral.compute_dihedrals"],
             "angles|dihedrals x {no cell, orthorhombic, one skewed frame, triclinic, 90.00001 deg} x periodic x opt",
             "non-periodic/no-cell -> plain kernel; periodic -> *_mic kernel with the per-frame TRANSPOSED cell and orthogonal <=> every frame allclose to 90 deg; opt=False -> reference path", 300),
+        Obl("C07.wrapper_flags", "xh", H, "wrapper_flags", ["mdtraj.geometry.dihedral.compute_phi/psi/omega/chi1..chi5"], "3 ARG residues; which wrapper, periodic, opt symbolic",
+            "each convenience wrapper hands the trajectory and the caller's periodic and opt flags, each in its own place, to compute_dihedrals", 200),
     ]
     return o
 
